@@ -48,6 +48,7 @@ type Op struct {
 	TRS   [][]float64            `json:"trs,omitempty"` // repeat: tx,ty,tz,sx,sy,sz per transform
 	Maps  map[string][][]float64 `json:"maps,omitempty"`
 	Via   bool                   `json:"via,omitempty"` // through Mesh.Transform(<the meshops transformer>)
+	Nil   bool                   `json:"nil,omitempty"` // an empty Idx / Data / Mats is handed over as a nil slice
 }
 
 // ---- slices handed to the implementation ----------------------------------------------------------------------
@@ -210,10 +211,14 @@ func apply(op Op, pool []modeling.Mesh) (ms []modeling.Mesh, status string, coq 
 	case "new":
 		coq = fmt.Sprintf("ONew %s %s %s", topoCoq[op.Topo], cellsCoq(intCells(op.Idx)), nat(op.Spare))
 		ms, status = protect(func() []modeling.Mesh {
-			if op.Fn == "tri" && op.Topo == 0 {
-				return one(modeling.NewTriangleMesh(mkInts(op.Idx, op.Spare)))
+			ix := mkInts(op.Idx, op.Spare)
+			if op.Nil && len(op.Idx) == 0 {
+				ix = nil
 			}
-			return one(modeling.NewMesh(modeling.Topology(op.Topo), mkInts(op.Idx, op.Spare)))
+			if op.Fn == "tri" && op.Topo == 0 {
+				return one(modeling.NewTriangleMesh(ix))
+			}
+			return one(modeling.NewMesh(modeling.Topology(op.Topo), ix))
 		})
 	case "empty":
 		coq = fmt.Sprintf("OEmpty %s", topoCoq[op.Topo])
@@ -299,7 +304,12 @@ func apply(op Op, pool []modeling.Mesh) (ms []modeling.Mesh, status string, coq 
 		})
 	case "setindices":
 		coq = fmt.Sprintf("OSetIndices %s %s %s", I, cellsCoq(intCells(op.Idx)), nat(op.Spare))
-		ms, status = protect(func() []modeling.Mesh { return one(m.SetIndices(mkInts(op.Idx, op.Spare))) })
+		ms, status = protect(func() []modeling.Mesh {
+			if op.Nil && len(op.Idx) == 0 {
+				return one(m.SetIndices(nil))
+			}
+			return one(m.SetIndices(mkInts(op.Idx, op.Spare)))
+		})
 	case "setmaterial":
 		coq = fmt.Sprintf("OSetMaterial %s (%d)%%Z", I, op.Mat)
 		ms, status = protect(func() []modeling.Mesh { return one(m.SetMaterial(*material(op.Mat))) })
@@ -314,6 +324,9 @@ func apply(op Op, pool []modeling.Mesh) (ms []modeling.Mesh, status string, coq 
 		}
 		coq = fmt.Sprintf("OSetMaterials %s %s %s", I, cellsCoq(cs), nat(op.Spare))
 		ms, status = protect(func() []modeling.Mesh {
+			if op.Nil && len(op.Mats) == 0 {
+				return one(m.SetMaterials(nil))
+			}
 			byID := map[int]*modeling.Material{} // equal ids share one *Material (SplitOnUniqueMaterials keys on the pointer)
 			s := make([]modeling.MeshMaterial, len(op.Mats), len(op.Mats)+op.Spare)
 			for i, e := range op.Mats {
